@@ -85,14 +85,6 @@ func envInt(name string, def int) int {
 	return def
 }
 
-func mix(a, b, c uint64) uint64 {
-	z := a*0x9E3779B97F4A7C15 ^ (b+0x632BE59BD9B4E019)*0xBF58476D1CE4E5B9 ^ (c+0x1234567)*0x94D049BB133111EB
-	z ^= z >> 31
-	z *= 0xD6E8FEB86659FD93
-	z ^= z >> 32
-	return z
-}
-
 func startWatchdog() {
 	// real-time watchdog: outside any bubble, so it runs on the real clock
 	go func() {
